@@ -68,8 +68,7 @@ class LoopMixin:
         raise Unsupported("loop not indexed")
 
     def loop_spec(self, node):
-        fi = self.fn_stack[-1]
-        c = self.contracts.get(fi.key)
+        c = self.current_contract()
         if c is None:
             return None, None
         o = self.loop_ordinal(node)
@@ -233,6 +232,8 @@ class LoopMixin:
             extra["entry"] = entry_view
             extra["args"] = args_view
             extra["outer"] = outer_view
+            if "trace_cell" in state.ghost:
+                extra["trace"] = state.heap[state.ghost["trace_cell"].oid].val
             return View(state, state.env, extra)
 
         # establish
